@@ -43,6 +43,10 @@ type cycle struct {
 
 type history struct {
 	Cycles []cycle `json:"cycles"`
+	// client configuration that must not matter to what is delivered: debug output, configured controllers (some with the
+	// serial numbers the events carry) and their configured time zones
+	Debug   bool             `json:"debug,omitempty"`
+	Devices []hook.DeviceCfg `json:"devices,omitempty"`
 }
 
 // outcome of one datagram according to the protocol model
@@ -162,7 +166,7 @@ func run(h history) *rp.Fail {
 	send := func(d dgram) { senders[d.Sender%3].WriteToUDP(d.Data, dest) }
 
 	for ci, cy := range h.Cycles {
-		u := hook.Real(hook.ClientCfg{HasListen: true, ListenIP: [4]byte{127, 0, 0, 1}, ListenPort: port, TimeoutMs: 500})
+		u := hook.Real(hook.ClientCfg{HasListen: true, ListenIP: [4]byte{127, 0, 0, 1}, ListenPort: port, TimeoutMs: 500, Debug: h.Debug, Devices: h.Devices})
 		rec := &recorder{}
 		rec.onConnect = func() { send(cy.Hello) }
 		q := make(chan os.Signal)
@@ -345,10 +349,13 @@ func check(h history) *rp.Fail {
 	return f
 }
 
-func genDatagram(t *rapid.T) dgram {
+func genDatagram(t *rapid.T, pool []uint32) dgram {
 	d := dgram{Sender: rapid.IntRange(0, 2).Draw(t, "sender")}
 	som := rapid.SampledFrom([]byte{0x17, 0x17, 0x19}).Draw(t, "som")
 	serial := gen.Serial(t)
+	if len(pool) > 0 && rapid.Bool().Draw(t, "known.controller") {
+		serial = pool[rapid.IntRange(0, len(pool)-1).Draw(t, "known.which")]
+	}
 	b := gen.Payload(t, spec.EventLayout, som, serial, 0, rapid.Bool().Draw(t, "noise"))
 	if rapid.IntRange(0, 4).Draw(t, "noevent") == 0 {
 		spec.PutLE32(b[8:], 0)
@@ -373,15 +380,26 @@ func genDatagram(t *rapid.T) dgram {
 
 func genHistory(t *rapid.T) history {
 	var h history
+	h.Debug = gen.Debug(t, "debug")
+	var pool []uint32
+	for i := rapid.IntRange(0, 3).Draw(t, "configured"); i > 0; i-- {
+		s := gen.Serial(t)
+		pool = append(pool, s)
+		d := hook.DeviceCfg{Name: fmt.Sprintf("c%d", i), Serial: s, TZ: gen.DeviceTZ(t, "tz"), ViaNew: rapid.Bool().Draw(t, "via.new"), Protocol: "udp"}
+		if rapid.Bool().Draw(t, "addr") {
+			d.HasAddr, d.IP, d.Port = true, [4]byte{127, 0, 0, byte(2 + i)}, 60000
+		}
+		h.Devices = append(h.Devices, d)
+	}
 	n := rapid.IntRange(1, 3).Draw(t, "cycles")
 	for i := 0; i < n; i++ {
-		cy := cycle{Hello: genDatagram(t)}
+		cy := cycle{Hello: genDatagram(t, pool)}
 		nb := rapid.IntRange(1, 4).Draw(t, "batches")
 		for j := 0; j < nb; j++ {
 			var b []dgram
 			nd := rapid.IntRange(1, 40).Draw(t, "datagrams")
 			for k := 0; k < nd; k++ {
-				b = append(b, genDatagram(t))
+				b = append(b, genDatagram(t, pool))
 			}
 			cy.Batches = append(cy.Batches, b)
 		}
